@@ -27,7 +27,8 @@ def specWhere (w : Option Cond) (fields : List Field) (src : List Row) : Option 
 
 /-- the select-list / GROUP BY part of `Spec.meaning` (the text of the specification, verbatim) -/
 def specTail (q : Select) (fields : List Field) (src : List Row) : Option (List Row) :=
-  if isStar q.list then some src
+  if isStar q.list then
+    (if q.groupBy.isEmpty && !(q.list.any fun d => isAgg d.item) then some src else none)
   else do
   let _ ← (q.list.flatMap fun d => itemColumns d.item).mapM fun c =>
     match findColumn c fields with | .ok i => some i | _ => none
